@@ -7,7 +7,7 @@ from ..build import sym
 COND_CLASSES = ["ConditionalGaussianPDF", "ConditionalGaussianDiagPDF", "ConditionalIdentityGaussianPDF",
                 "ConditionalIdentityDiagGaussianPDF"]
 BATCH_CTX = ["1/1", "n/1", "1/n"]          # (R_cond / R_x)
-ROUTE_CTX = ["1/1@Sigma", "1/1@Lambda", "n/1@Lambda"]     # constructor routes of the conditional (covariance only / precision only)
+ROUTE_CTX = ["1/1@Sigma", "1/1@Lambda", "n/1@Lambda", "1/1@updated", "n/1@updated"]     # constructor routes of the conditional (covariance only / precision only)
 REGIMES = ["Dx>Dy", "Dx<=Dy"]
 
 
@@ -48,7 +48,14 @@ def setup_cond(cls, ctx, regime="Dx<=Dy", px_args="full"):
     ctx, cargs = split_ctx(ctx)
     Rc, Rx, Dy, Dx = cond_sizes(cls, ctx)
     I = build.new_interp(facts=regime_facts(Dx, Dy, regime))
-    c = build.conditional(I, Rc, Dy, Dx, "c", cls=cls, args=cargs)
+    if cargs == "updated":
+        # history context: the noise covariance was replaced through the public mutator update_Sigma
+        c = build.conditional(I, Rc, Dy, Dx, "c", cls=cls, args="full")
+        S2 = nf.atom("Sigma2(c)", [Rc, Dy, Dy], sym=True, owner="c")
+        I.call_method(c, "update_Sigma", [S2])
+        c.meta["given"] = {"Sigma": S2}
+    else:
+        c = build.conditional(I, Rc, Dy, Dx, "c", cls=cls, args=cargs)
     px = build.pdf(I, Rx, Dx, "px", args=px_args)
     return I, c, px, (Rc, Rx, Dy, Dx)
 
